@@ -211,7 +211,7 @@ var structTargets = []structTarget{
 		return pkix.Extension{Id: asn1.ObjectIdentifier{2, 5, 29, 19}, Critical: true, Value: []byte{0x30, 0x03, 0x01, 0x01, 0xff}}
 	}, dec[pkix.Extension]()},
 	{"pkix.RDNSequence", func() any {
-		return pkix.Name{CommonName: "example.com", Country: []string{"US", "DE"}, Organization: []string{"Ex & Co"},
+		return pkix.Name{CommonName: "example.com ", Country: []string{"US", "DE"}, Organization: []string{" Ex & Co"},
 			EmailAddress: []string{"a@example.com"}, SerialNumber: "0042"}.ToRDNSequence()
 	}, dec[pkix.RDNSequence]()},
 	{"validity", func() any { return validity{t0, t0.AddDate(40, 0, 0)} }, dec[validity]()},
@@ -220,7 +220,7 @@ var structTargets = []structTarget{
 			Bits: asn1.BitString{Bytes: []byte{0xa0}, BitLength: 3}, Blob: []byte{1, 2, 3}, When: t0}
 	}, dec[mixed]()},
 	{"strs", func() any {
-		return strs{P: "Printable 1", U: "utf8 é", N: "123 456", A: []string{"a", "b*", "c@d"}, I: int64(300)}
+		return strs{P: " Printable 1 ", U: " utf8 é\t", N: " 123 456 ", A: []string{" a ", "b*", "c@d"}, I: int64(300)}
 	}, dec[strs]()},
 	{"nested", func() any {
 		return nested{Alg: pkix.AlgorithmIdentifier{Algorithm: asn1.ObjectIdentifier{1, 3, 101, 112}},
